@@ -16,7 +16,7 @@ summarize = container.summarize_factory(lambda s: s["remove-nonlast-then-add"] o
 
 
 def machine(ctx, tier):
-    return build_machine(ctx, interp, container.init_images(allow_capture=True, allow_gaps=True), container.history_ops(refusals=REFUSALS), summarize)
+    return build_machine(ctx, interp, container.init_images(allow_capture=True, allow_gaps=True, allow_free_garbage=True), container.history_ops(refusals=REFUSALS), summarize)
 
 
 def run(ctx, case):
